@@ -487,6 +487,7 @@ class SmtLibParser(object):
     def _reset(self):
         """Resets the parser to the initial state"""
         self.cache = SmtLibExecutionCache(self.env)
+        self._invented_vars = set()
         self.logic = None
         mgr = self.env.formula_manager
         self.cache.update({'false': mgr.FALSE(), 'true': mgr.TRUE()})
@@ -659,10 +660,17 @@ class SmtLibParser(object):
     def _get_quantified_var(self, name: str, type_name: PySMTType) -> FNode:
         """Returns the PySMT variable corresponding to a declaration"""
         try:
-            return self._get_var(name, type_name)
+            var = self._get_var(name, type_name)
+            # A symbol invented for another bound variable is not the
+            # variable of a binder that happens to have its name
+            if var not in self._invented_vars:
+                return var
         except PysmtTypeError:
-            return self.env.formula_manager.FreshSymbol(typename=type_name,
-                                                        template=name + "%d")
+            pass
+        var = self.env.formula_manager.FreshSymbol(typename=type_name,
+                                                   template=name + "%d")
+        self._invented_vars.add(var)
+        return var
 
     def atom(self, token: str, mgr: FormulaManager) -> FNode:
         """
